@@ -570,7 +570,8 @@ TIMES = [datetime.time(0, 0, tzinfo=UTC), datetime.time(23, 59, 59, 999999, tzin
          datetime.time(12, 30, tzinfo=aware(5, 30)), datetime.time(1, 2, 3, 4, tzinfo=aware(-8))]
 TIMEDELTAS = [datetime.timedelta(0), datetime.timedelta(seconds=1), datetime.timedelta(days=1, seconds=3661),
               datetime.timedelta(days=7), datetime.timedelta(days=8, microseconds=1), datetime.timedelta(days=400),
-              datetime.timedelta(seconds=-1), datetime.timedelta(microseconds=999999)]
+              datetime.timedelta(seconds=-1), datetime.timedelta(microseconds=999999),
+              datetime.timedelta(days=150000, microseconds=1)]
 PATTERNS = [re.compile("a"), re.compile("^x+$"), re.compile("[0-9]{2}")]
 
 
@@ -586,8 +587,9 @@ def TimeS(safe=True):
     return Picked(datetime.time, [x for x in TIMES if _zero(x.utcoffset())] if safe else TIMES,
                   tag=lambda v: "utc" if _zero(v.utcoffset()) else "nonutc")
 def TimeDeltaS(safe=True):
-    return Picked(datetime.timedelta, [x for x in TIMEDELTAS if x >= datetime.timedelta(0)] if safe else TIMEDELTAS,
-                  tag=lambda v: "neg" if v < datetime.timedelta(0) else "nonneg")
+    big = datetime.timedelta(days=24855)
+    return Picked(datetime.timedelta, [x for x in TIMEDELTAS if datetime.timedelta(0) <= x < big] if safe else TIMEDELTAS,
+                  tag=lambda v: "neg" if v < datetime.timedelta(0) else ("large_us" if abs(v) >= big and v.microseconds else "nonneg"))
 def PatternS(): return Picked(re.Pattern, PATTERNS)
 
 
